@@ -37,6 +37,7 @@ def conv(t):
 
 
 def run(ctx):
+    generic.kwargs_keys_are_dests(ctx, "C07-D6b keyword reads are option destinations", "suit_generator.cmd_image")
     R = ctx.report
     repo = ctx.repo
     ctx.use_files("suit_generator/cmd_image.py", "suit_generator/envelope.py", "suit_generator/input_output.py")
